@@ -205,6 +205,67 @@ impl<K: Kit> Drv<K> {
     }
 }
 
+/// The same four planners over the REAL space type (no sampler seam): the planners are generic over
+/// `StateSpace`, and the scripted wrapper forwards exactly the trait's required methods - a provided
+/// method that a concrete space overrides (a specialised fast path) is only exercised through this driver.
+pub type RawPd<K> = ProblemDefinition<<K as Kit>::S, <K as Kit>::SP, HGoal<K>>;
+pub enum RawDrv<K: Kit> {
+    Rrt(RRT<K::S, K::SP, HGoal<K>>),
+    Star(RRTStar<K::S, K::SP, HGoal<K>>),
+    Connect(RRTConnect<K::S, K::SP, HGoal<K>>),
+    Prm(PRM<K::S, K::SP, HGoal<K>>),
+}
+impl<K: Kit> RawDrv<K> {
+    pub fn new(p: &Params) -> Self {
+        let cfg = PlannerConfig { seed: p.seed };
+        match p.pk {
+            Pk::Rrt => RawDrv::Rrt(RRT::new(p.step, p.bias, &cfg)),
+            Pk::Star => RawDrv::Star(RRTStar::new(p.step, p.bias, p.radius, &cfg)),
+            Pk::Connect => RawDrv::Connect(RRTConnect::new(p.step, p.bias, &cfg)),
+            Pk::Prm => RawDrv::Prm(PRM::new(p.prm_timeout, p.step, &cfg)),
+        }
+    }
+    pub fn setup(&mut self, pd: Arc<RawPd<K>>, w: Arc<World<K>>) {
+        let vc: Arc<dyn StateValidityChecker<K::S>> = w;
+        match self {
+            RawDrv::Rrt(p) => p.setup(pd, vc),
+            RawDrv::Star(p) => p.setup(pd, vc),
+            RawDrv::Connect(p) => p.setup(pd, vc),
+            RawDrv::Prm(p) => p.setup(pd, vc),
+        }
+    }
+    pub fn solve(&mut self, timeout: Duration) -> Result<Vec<K::S>, PlanningError> {
+        match self {
+            RawDrv::Rrt(p) => p.solve(timeout).map(|x| x.0),
+            RawDrv::Star(p) => p.solve(timeout).map(|x| x.0),
+            RawDrv::Connect(p) => p.solve(timeout).map(|x| x.0),
+            RawDrv::Prm(p) => p.solve(timeout).map(|x| x.0),
+        }
+    }
+    pub fn construct_roadmap(&mut self) -> Result<(), PlanningError> {
+        match self {
+            RawDrv::Prm(p) => p.construct_roadmap(),
+            _ => panic!("construct_roadmap on a tree planner"),
+        }
+    }
+    pub fn set_prm_timeout(&mut self, t: f64) {
+        if let RawDrv::Prm(p) = self {
+            p.timeout = t;
+        }
+    }
+    pub fn snapshot(&self) -> Snap<K> {
+        match self {
+            RawDrv::Rrt(p) => Snap::Tree(p.verif_snapshot().into_iter().map(|(s, q)| (s, q, f64::NAN)).collect()),
+            RawDrv::Star(p) => Snap::Tree(p.verif_snapshot()),
+            RawDrv::Connect(p) => {
+                let (a, b) = p.verif_snapshot();
+                Snap::Two(a.into_iter().map(|(s, q)| (s, q, f64::NAN)).collect(), b.into_iter().map(|(s, q)| (s, q, f64::NAN)).collect())
+            }
+            RawDrv::Prm(p) => Snap::Roadmap(p.verif_snapshot()),
+        }
+    }
+}
+
 /// Timeout that admits exactly `n` loop iterations under a 1 ms tick (n >= 0).
 pub fn iters(n: usize) -> Duration {
     if n == 0 {
